@@ -457,6 +457,12 @@ func (u *Units) analyse(fn *ssa.Function, check bool) {
 				if !x.CommaOk {
 					u.k[x] = u.lookupKind(x)
 				}
+				// a read of the back map is keyed like its writes: by the absolute offset
+				if check {
+					if fr, ok := loadedField(x.X); ok && fr.Struct+"."+fr.Field == "column.columnSortIndex.backMap" {
+						u.sink(fn, ins, "back-map key", uAbs, u.val(x.Index))
+					}
+				}
 			case *ssa.BinOp:
 				u.k[x] = u.binop(x)
 			case *ssa.MakeClosure:
